@@ -123,9 +123,33 @@ def run(ck):
                     if o == 'missing':
                         ck.violation('impl-violation', c['sources'], module=mname, why='no use line for the IMPORTS clause FROM %s' % src_mod)
                         continue
+                    # the governing types of imported values are appended to the clause when the same module defines them
+                    owner_d = {d.name: d for d in ms.all_defs()}
+                    assoc = []
+                    every = [x for v in MG.imports_of(ms, mname).values() for x in v]
+                    for sym in sorted(every):
+                        d = owner_d.get(sym)
+                        if d is not None and d.is_value and d.governor in owner_d and owner_d[d.governor].module == src_mod \
+                                and d.governor not in symbols and d.governor not in assoc:
+                            assoc.append(d.governor)
+                    if o is not None and assoc:
+                        tail = o[len(o) - len(assoc):]
+                        want_tail = [re.sub(r'(^|[-_])([a-z0-9])', lambda m: m.group(2).upper(), a).replace('-', '') for a in assoc]
+                        if sorted(tail) != sorted(want_tail):
+                            ck.violation('impl-violation', c['sources'], module=mname,
+                                         why='the use line FROM %s does not end with the governing types %s of the imported values: %s' % (src_mod, want_tail, o))
+                            continue
+                        o = o[:len(o) - len(assoc)]
                     use_terms.append('(%s, %s)' % (clist(sorted(symbols), cstr), copt(o, lambda l: clist(l, cstr) if l else '(@nil str)')))
                     use_idx.append((i, mname, src_mod))
                 extra = set(obs) - {rust_mod(x) for x in MG.imports_of(ms, mname)}
+                # importing a value also imports its governing type from the module that defines it (fill_in_associated_type_imports)
+                owner = {d.name: d for d in ms.all_defs()}
+                for symbols in MG.imports_of(ms, mname).values():
+                    for sym in symbols:
+                        d = owner.get(sym)
+                        if d is not None and d.is_value and d.governor and d.governor in owner:
+                            extra.discard(rust_mod(owner[d.governor].module))
                 if extra:
                     ck.violation('impl-violation', c['sources'], module=mname, why='use lines for modules that are not imported: %s' % sorted(extra))
             continue
